@@ -154,11 +154,14 @@ def gen_test(rng, tid, tok, kind=None, p_write=0.3):
         for p_ in [t["setUp"], t["body"], t["tearDown"]] + t["subs"] + t["cleanups"]:
             for w_ in p_["writes"]:
                 w_[0] = True
-    if rng.random() < 0.07 and not t.get("doctest") and not t.get("ownstream") and not t.get("rebind") and not any(p_["writes"] for p_ in
-            [t["setUp"], t["body"], t["tearDown"]] + t["subs"] + t["cleanups"]):
+    if rng.random() < 0.07 and not t.get("doctest") and not t.get("ownstream") and t.get("rebind") is not True and \
+            not any(p_["writes"] for p_ in [t["setUp"], t["body"], t["tearDown"]] + t["subs"] + t["cleanups"]):
         # a test that closes the stream it finds as sys.stdout / sys.stderr (code that "owns" its output stream); the
-        # world does this only to a capture stream of the runner (--buffer), never to the real streams
-        rng.choice([t["setUp"], t["body"], t["tearDown"]])["close"] = rng.choice(["out", "err", "both"])
+        # world does this only to a capture stream of the runner (--buffer), never to the real streams.  A test that
+        # also saves one stream and puts it back at its end closes the other one (putting back a stream one has
+        # closed oneself is the test's own leak)
+        which = {"out": "err", "err": "out"}.get(t.get("rebind")) or rng.choice(["out", "err", "both"])
+        rng.choice([t["setUp"], t["body"], t["tearDown"]])["close"] = which
     if rng.random() < 0.12:
         # test names need not be plain ASCII: accents, a lone surrogate (only backslashreplace can write it), tabs
         t["label"] = rng.choice(["caf\u00e9", "\udc80sur", "snow\u2603man", "tab\there", "q\"uote", "\U0001f600"])
